@@ -1,0 +1,21 @@
+//go:build verif
+
+package bitcoin_reader
+
+import "context"
+
+// VerifMarkStartupDelayComplete marks the startup delay as elapsed, exactly as the timer in Run
+// does. Verification hook only; compiled with the "verif" build tag.
+func (m *NodeManager) VerifMarkStartupDelayComplete(ctx context.Context) {
+	m.markStartupDelayComplete(ctx)
+}
+
+// VerifBlockSyncState reports whether a block synchronisation round is running and whether the
+// restart-after-this-round flag is set.
+func (m *NodeManager) VerifBlockSyncState() (running bool, restartPending bool) {
+	m.blockManagerLock.Lock()
+	defer m.blockManagerLock.Unlock()
+
+	running = m.blockManagerThread != nil && !m.blockManagerThread.IsComplete()
+	return running, m.blockSyncNeeded
+}
